@@ -273,7 +273,7 @@ PROPS["C05"] = dict(
                  "invariance proved under no-top-ties (relabelling) or distinct first-degree hashes (relabelling + order); unrestricted invariance refuted for RDFC-1.0 itself (known finding)"],
 )
 PROPS["C06"] = dict(
-    level="proof", translators=[translate.gen_consts], runs=[dict(bin="c06")],
+    level="proof", translators=[translate.gen_consts], runs=[dict(bin="c06")], coq_targets=["C06/Properties", "C06/Regen"],
     quick=dict(n=400, shards=16),
     thorough=dict(n=12000, shards=64, args=["--thorough"], run_timeout=3000, coq_case_timeout=3000),
     trusted_base=_C05_MODEL + ["coq/C06/Model.v: RDFC-1.0 sections 4.4-4.8 and canonical N-Quads transcribed from the Recommendation (from memory, no network), the orders it leaves open taken as Heap's order / label order / stable ties"],
@@ -284,9 +284,9 @@ import regex_turtle2coq  # noqa: E402
 
 PROPS["C04"] = dict(
     level="proof",
-    translators=[regex_turtle2coq.gen_regex_turtle],
+    translators=[regex_turtle2coq.gen_regex_turtle, translate.gen_consts],
     extra=[regex_turtle2coq.ka_extra],
-    coq_targets=["C04/Model", "C04/Properties"],
+    coq_targets=["C04/Model", "C04/Properties", "C04/RegenDepth"],
     runs=[dict(bin="c04")],
     quick=dict(n=2000, shards=16),
     thorough=dict(n=60000, shards=128, run_timeout=3000, coq_case_timeout=3000),
